@@ -315,7 +315,7 @@ class GeoPolygon(PolygonBase, SimpleShapeMixin):
         s_outline = self.outline[0:-1]
         o_outline = other.outline[0:-1]
         outline_eq = False
-        for _ in range(0, len(o_outline)):
+        for _ in range(0, max(len(o_outline), 1)):
             # Rotate the outline
             if s_outline in (o_outline, o_outline[::-1]):
                 outline_eq = True
